@@ -110,18 +110,18 @@ def validate_trace(path, name):
     return t, info["line"], info["event"]
 
 
-def d2(prop, profile, sessions, seed, all_names=False):
+def d2(prop, profile, sessions, seed, all_names=False, hfs=False):
     """Leg D2: record a trace from real executions and validate it against the trace specification."""
-    names = name_table()
-    d = os.path.join(WORK, f"{prop.lower()}-d2-{profile}")
+    names = name_table_hfs() if hfs else name_table()
+    d = os.path.join(WORK, f"{prop.lower()}-d2-{profile}" + ("-hfs" if hfs else ""))
     os.makedirs(d, exist_ok=True)
     nd = os.path.join(d, "trace.ndjson")
     args = ["trace", "--names", names, "--seed", str(seed), "--sessions", str(sessions), "--profile", profile, "--out", nd]
     if all_names:
         args.append("--all-names")
-    rc, out = harness(args)
+    rc, out = harness(args, hfs=hfs)
     info = json.loads(out.strip().splitlines()[-1])
-    t, line, ev = validate_trace(nd, f"{prop.lower()}-d2-{profile}")
+    t, line, ev = validate_trace(nd, f"{prop.lower()}-d2-{profile}" + ("-hfs" if hfs else ""))
     viol = []
     lines = open(nd).read().splitlines()
     if line is not None:
@@ -135,7 +135,8 @@ def d2(prop, profile, sessions, seed, all_names=False):
     samples = [json.loads(x) for x in lines[3:6]]
     os.remove(nd)
     log(f"D2 {profile}: {info['sessions']} sessions, {info['events']} events, {'REJECTED at %s' % line if line else 'accepted'}")
-    return dict(tlc=t, sessions=info["sessions"], events=info["events"], violations=viol, samples=samples, profile=profile)
+    return dict(tlc=t, sessions=info["sessions"], events=info["events"], violations=viol, samples=samples,
+                profile=profile + (" (hfs build)" if hfs else ""))
 
 
 def d2_repo_tests(prop):
@@ -230,7 +231,8 @@ def c02(tier, seed):
                  "here: honest sessions with payload profiles zero/tag-sized/maximum-fit (65535 minus the model-computed "
                  "overhead), stateful and stateless, mixed-direction transport traffic; TLC checks Completes, Agreement, "
                  "Delivery, RawSplitAgrees on every state", ASSUME_SYMBOLIC)
-    d = [d2("C02", "honest", 400 if tier == "quick" else 13344, seed, all_names=(tier != "quick"))]
+    d = [d2("C02", "honest", 400 if tier == "quick" else 13344, seed, all_names=(tier != "quick")),
+         d2("C02", "honest", 80 if tier == "quick" else 25272, seed, all_names=(tier != "quick"), hfs=True)]
     if tier != "quick":
         d.append(d2("C02", "long", 300, seed))
     return add_d2(res, d)
@@ -283,7 +285,8 @@ def c07(tier, seed):
     require_causes(res, ["W_BUF_E", "W_BUF_S", "W_BUF_PAYLOAD", "W_MAXLEN", "W_TURN", "W_NO_PSK", "R_TURN", "R_SHORT_E", "R_SHORT_S",
                          "R_SHORT_PAYLOAD", "R_AUTH_S", "R_AUTH_PAYLOAD", "R_OUTBUF", "R_TOO_LONG", "T_W_BUF", "T_W_MAXLEN",
                          "T_R_AUTH", "T_R_SHORT", "T_R_OUTBUF", "T_ONEWAY"])
-    ds = [d2("C07", "faulty", 400 if tier == "quick" else 6000, seed), d2_repo_tests("C07")]
+    ds = [d2("C07", "faulty", 400 if tier == "quick" else 6000, seed), d2_repo_tests("C07"),
+          d2("C07", "faulty", 80 if tier == "quick" else 3000, seed, hfs=True)]
     return add_d2(res, [x for x in ds if x])
 
 
@@ -716,8 +719,8 @@ def c13(tier, seed):
         f.write(open(name_table_hfs()).read())
         f.write(open(names).read())
     hseeds, hrnd = (20, 3000) if tier == "quick" else (600, 100000)
-    rc, out = harness(["names", "--names", allf, "--seed", str(seed + 7), "--seeds", str(hseeds), "--random", str(hrnd),
-                       "--out", nd], hfs=True)
+    rc, out = harness(["names", "--names", allf, "--extra", name_table_hfs(), "--seed", str(seed + 7), "--seeds", str(hseeds),
+                       "--random", str(hrnd), "--out", nd], hfs=True)
     hstr = json.loads(out.strip().splitlines()[-1])["strings"]
     os.environ["NAMES_FILE"] = nd
     th = run_tlc("MC_NamesJudge", {"HfsBuild": True}, invariants=["Finished"], name="c13-judge-hfs", workers=1, timeout=3000)
@@ -839,7 +842,8 @@ def c08(tier, seed):
                  "the call that fails; the real code must fail at that call (and nothing may cross afterwards). Name "
                  "mismatches with different primitives are covered by the protocol-agnostic mismatch driver (D2)",
                  ASSUME_SYMBOLIC)
-    return add_d2(res, [d2("C08", "mismatch", 300 if tier == "quick" else 5000, seed)])
+    return add_d2(res, [d2("C08", "mismatch", 300 if tier == "quick" else 5000, seed),
+                        d2("C08", "mismatch", 60 if tier == "quick" else 2000, seed, hfs=True)])
 
 
 def c19(tier, seed):
